@@ -47,3 +47,10 @@ for _n, _tier in ((5, "quick"), (7, "thorough")):
 U("c01_pair_engine_new", ["C01"], "h_engine_new", ["C01/pairs.c"], ["token_pairs.c"], plain=True, lib=(), kind="finite",
   cbmc_flags=["--unwind", "3", "--unwinding-assertions", "--memory-leak-check"], functions=["token_pair_engine_new", "token_pair_engine_free"],
   native={"repo": ["token_pairs.c", "token.c", "stack.c", "object_pool.c", "char.c"]}, callees={"memcpy": "CBMC built-in"}, assumptions=[NOFAIL])
+
+# ---- ownership: parse_brackets hands back a link to be freed only if it was built on the fly
+U("c01_parse_brackets_ownership", ["C01"], "h_parse_brackets", ["C01/brackets.c"], ["writer.c"], enforce="parse_brackets",
+  replace=["explicit_link", "extract_link_from_stack", "text_inside_pair"], lib=(), cbmc_flags=["--unwind", "5"],
+  kind="bounded", bounds={"bracket children": 3, "following token": "none | PAIR_PAREN | PAIR_BRACKET | any type"},
+  functions=["parse_brackets"], callees={"explicit_link": "contract (returns NULL or a caller-owned link)", "extract_link_from_stack": "contract (returns NULL or an engine-owned link)", "text_inside_pair": "contract (returns a fresh string)"},
+  min_obligations=20, assumptions=["explicit_link returns NULL or a link the caller owns; extract_link_from_stack returns NULL or a link owned by the scratch pad/engine (writer.c ownership comments)"])
